@@ -280,6 +280,228 @@ def replay_type(ob):
     return (not same), f"printed {pp['text']!r}, parsed back as {str(t2)[:100]}"
 
 
+# ------------------------------------------------------------------------------------------------ document model
+
+
+def _doc(*toks):
+    return LibV("doc", tuple(toks))
+
+
+def _as_doc(ex, st, v):
+    v = S.deref(ex, st, v)
+    if isinstance(v, LibV) and v.kind == "doc":
+        return v
+    if isinstance(v, Str):
+        return _doc(("t", v))
+    if isinstance(v, LibV) and v.kind == "shown":
+        return _doc(("show", v.data))
+    raise Unsupported(f"not a document: {type(v).__name__}")
+
+
+def _stub_doc_text(ex, st, c, args, dty):
+    return _as_doc(ex, st, args[0])
+
+
+def _stub_doc_ws(ex, st, c, args, dty):
+    return _doc(("ws",))
+
+
+def _stub_doc_as_string(ex, st, c, args, dty):
+    v = S.deref(ex, st, args[0])
+    if isinstance(v, BV):
+        return _doc(("show", ex.to_int_expr(v)))
+    if isinstance(v, BigI):
+        return _doc(("show", v.e))
+    raise Unsupported("as_string of a non-integer")
+
+
+def _stub_doc_append(ex, st, c, args, dty):
+    a, b = _as_doc(ex, st, args[0]), _as_doc(ex, st, args[1])
+    return _doc(*(a.data + b.data))
+
+
+def _stub_doc_id(ex, st, c, args, dty):
+    return _as_doc(ex, st, args[0])
+
+
+def _stub_doc_intersperse(ex, st, c, args, dty):
+    sep = _as_doc(ex, st, args[1])
+    out = []
+    for s0, items in S._force_iter(ex, st.clone(), args[0]):
+        if isinstance(items, S.Panic):
+            out.append((s0, items))
+            continue
+        elems = S._as_arr(items).elems
+        toks = []
+        for i, e in enumerate(elems):
+            if i:
+                toks += list(sep.data)
+            toks += list(_as_doc(ex, s0, e).data)
+        out.append((s0, _doc(*toks)))
+    return S.Forked(out)
+
+
+def _stub_bigint_to_string(ex, st, c, args, dty):
+    return LibV("shown", S.as_big(ex, st, args[0]).e)
+
+
+def _stub_hex_encode(ex, st, c, args, dty):
+    v = S.deref(ex, st, args[0])
+    if isinstance(v, VecV):
+        v = v.items
+    if isinstance(v, Bytes):
+        return LibV("doc", (("hex", v.s),))
+    raise Unsupported("hex::encode of a non-byte vector")
+
+
+DOC_STUBS = {}
+for _n in ("text",):
+    for _g in ("", "::<'_>", "::<'_, ()>", "::<'a, ()>"):
+        DOC_STUBS[f"RcDoc{_g}::{_n}"] = _stub_doc_text
+for _n in ("space", "line", "line_", "softline", "softline_", "hardline", "nil"):
+    for _g in ("", "::<'_>", "::<'_, ()>", "::<'a, ()>"):
+        DOC_STUBS[f"RcDoc{_g}::{_n}"] = _stub_doc_ws
+for _g in ("", "::<'_>", "::<'_, ()>", "::<'a, ()>"):
+    DOC_STUBS[f"RcDoc{_g}::as_string"] = _stub_doc_as_string
+    DOC_STUBS[f"RcDoc{_g}::append"] = _stub_doc_append
+    DOC_STUBS[f"RcDoc{_g}::group"] = _stub_doc_id
+    DOC_STUBS[f"RcDoc{_g}::nest"] = _stub_doc_id
+    DOC_STUBS[f"RcDoc{_g}::intersperse"] = _stub_doc_intersperse
+DOC_STUBS["<BigInt as ToString>::to_string"] = _stub_bigint_to_string
+DOC_STUBS["hex::encode"] = _stub_hex_encode
+
+
+def ref_tokens(shape, leaves):
+    """reference printing of a Data value as the grammar rule data() reads it: Constr <logical index> [..], Map [(k, v), ..],
+    List [..], I <n>, B #<hex>"""
+    k = shape[0]
+    if k == "i":
+        return [("t", "I"), ("ws",), ("show", leaves.pop(0))]
+    if k == "b":
+        return [("t", "B"), ("ws",), ("t", "#"), ("hex", leaves.pop(0))]
+    if k == "list":
+        out = [("t", "List"), ("ws",), ("t", "[")]
+        for i, x in enumerate(shape[1]):
+            if i:
+                out.append(("t", ", "))
+            out += ref_tokens(x, leaves)
+        return out + [("t", "]")]
+    if k == "map":
+        out = [("t", "Map"), ("ws",), ("t", "[")]
+        for i, (a, b) in enumerate(shape[1]):
+            if i:
+                out.append(("t", ", "))
+            out += [("t", "(")] + ref_tokens(a, leaves) + [("t", ", ")] + ref_tokens(b, leaves) + [("t", ")")]
+        return out + [("t", "]")]
+    idx = leaves.pop(0)
+    out = [("t", "Constr"), ("ws",), ("show", idx), ("ws",), ("t", "[")]
+    for i, x in enumerate(shape[1]):
+        if i:
+            out.append(("t", ", "))
+        out += ref_tokens(x, leaves)
+    return out + [("t", "]")]
+
+
+def data_printing(world: World, res: Result, tier: str):
+    """Constant::to_doc_list_plutus_data from MIR on data shapes with symbolic tags / integers / bytes: the token stream must be
+    the data syntax of the grammar with the LOGICAL constructor index (what `Constr n` is read back as by Data::constr)"""
+    from specs import data as SD
+    ob = Obligation("data/printing", "discharged", "")
+    ex = world.executor(timeout_ms=20000, max_paths=400, max_steps=40000)
+    ex.stubs.update(DOC_STUBS)
+    try:
+        f = world.fn("Constant", "to_doc_list_plutus_data")
+    except Unsupported as e:
+        ob.status, ob.detail = "undecided", str(e)
+        res.add(ob)
+        return
+    shapes = [("i",), ("b",), ("list", ()), ("list", (("i",), ("b",))), ("map", ((("i",), ("b",)),)), ("constr", "none", ()), ("constr", "none", (("i",),)),
+              ("constr", "some", (("b",), ("i",))), ("constr", "none", (("constr", "some", ()), ("list", (("i",),)))), ("map", ((("constr", "none", ()), ("list", ())), (("i",), ("i",))))]
+    n = 0
+    for shp in shapes:
+        st = ex.new_state()
+        leaves, cnt = [], [0]
+
+        def build(s_):
+            cnt[0] += 1
+            if s_[0] == "i":
+                e = z3.Int(f"pi{cnt[0]}")
+                v, c = SD.mk_int(world, e, "small")
+                st.pc.append(c)
+                leaves.append(e)
+                return v, ("i",)
+            if s_[0] == "b":
+                b = z3.Const(f"pb{cnt[0]}", S.ByteSeq)
+                leaves.append(b)
+                return SD.mk_bytes(world, b), ("b",)
+            if s_[0] == "list":
+                items = [build(x) for x in s_[1]]
+                return SD.mk_list(world, [v for v, _ in items]), ("list", tuple(r for _, r in items))
+            if s_[0] == "map":
+                ps = [(build(a), build(b)) for a, b in s_[1]]
+                return SD.mk_map(world, [(a[0], b[0]) for a, b in ps]), ("map", tuple((a[1], b[1]) for a, b in ps))
+            tag = ex.sym_int(f"ptag{cnt[0]}", 64, False, st)
+            if s_[1] == "none":
+                anyv, anyi = ex.none(), None
+                st.pc.append(SD.well_formed_tag(ex.to_int_expr(tag), False))
+            else:
+                a = ex.sym_int(f"pany{cnt[0]}", 64, False, st)
+                anyv, anyi = ex.some(a), ex.to_int_expr(a)
+                st.pc.append(SD.well_formed_tag(ex.to_int_expr(tag), True))
+            slot = len(leaves)
+            leaves.append(SD.logical_index(ex.to_int_expr(tag), anyi))
+            fs = [build(x) for x in s_[2]]
+            return SD.mk_constr(world, ex, tag, anyv, [v for v, _ in fs]), ("constr", tuple(r for _, r in fs))
+        try:
+            d, rshape = build(shp)
+            outs = ex.run(f, [ex.alloc(st, d)], st)
+        except Unsupported as e:
+            ob.status, ob.detail = "undecided", f"{e} (shape {shp})"
+            continue
+        want = ref_tokens(rshape, list(leaves))
+        for o in outs:
+            n += 1
+            if o.kind != "return":
+                if o.kind == "panic":
+                    ob.status, ob.detail, ob.finding_key = "violated", f"data printer panics on shape {shp}: {o.msg}; {str(ex.model(o.pc))[:200]}", "data printing: panic"
+                else:
+                    ob.status, ob.detail = "undecided", f"{o.msg} (shape {shp})"
+                continue
+            try:
+                got = list(_as_doc(ex, o.state, o.value).data)
+            except Unsupported as e:
+                ob.status, ob.detail = "undecided", str(e)
+                continue
+            bad = None
+            if len(got) != len(want):
+                bad = f"{len(got)} tokens instead of {len(want)}"
+            else:
+                for g, w_ in zip(got, want):
+                    if g[0] != w_[0]:
+                        bad = f"token kind {g[0]} where {w_[0]} is expected"
+                        break
+                    if g[0] == "t":
+                        gb = S._concrete_bytes(g[1].s) if isinstance(g[1], Str) else None
+                        if gb is None or gb.decode("utf-8", "replace") != w_[1]:
+                            bad = f"text {gb!r} where {w_[1]!r} is expected"
+                            break
+                    elif g[0] in ("show", "hex"):
+                        if ex.check(o.pc, g[1] != w_[1]) == "sat":
+                            m = ex.model(o.pc, g[1] != w_[1])
+                            what = "constructor index / integer" if g[0] == "show" else "bytes"
+                            bad = f"printed {what} {m.eval(g[1], True)} where {m.eval(w_[1], True)} is expected ({str(m)[:200]})"
+                            break
+            if bad:
+                ob.status, ob.detail, ob.finding_key = "violated", f"data printing of shape {shp}: {bad}", "data printing: wrong token"
+                ob.model = {"shape": str(shp), "what": bad}
+    if ob.status == "discharged":
+        ob.detail = f"{len(shapes)} data shapes, {n} paths: the printed token stream is the grammar's data syntax with the logical constructor index"
+        ob.witness = n > 0
+    ob.queries, ob.solver_s = ex.queries, round(ex.solver_s, 3)
+    res.functions.update(ex.encoded)
+    res.add(ob)
+
+
 def run(tier: str, seed: int, only=None) -> Result:
     res = Result("C15", tier, seed, "model_checking")
     res.assumptions = [
@@ -296,6 +518,8 @@ def run(tier: str, seed: int, only=None) -> Result:
         builtin_names(world, res)
     if not only or only == "types":
         type_keywords(world, res)
+    if not only or only == "data":
+        data_printing(World(("uplc",)), res, tier)  # pallas types by their summaries (as in C04), not from pallas-codec's MIR
     kf = KnownFindings()
 
     def replay(ob):
